@@ -750,12 +750,13 @@ def u_cast_prms(W, sk):
         "flodym.lifetime_models.LifetimeModel.sf",
         "flodym.lifetime_models.LifetimeModel.pdf",
     ],
-    skeletons=lambda tier: [{"dist": d, "extra": e, "read": rd} for d in ("Normal", "Fixed", "Weibull") for e in (0, 1) for rd in ("sf", "pdf", "both", "none")],
+    skeletons=lambda tier: [{"dist": d, "extra": e, "read": rd, "npts": 1} for d in ("Normal", "Fixed", "Weibull") for e in (0, 1) for rd in ("sf", "pdf", "both", "none")]
+    + [{"dist": d, "extra": e, "read": rd, "npts": k} for k in ((2, 3) if tier == "thorough" else (2,)) for d in ("Normal", "Weibull") for e in ((0, 1) if tier == "thorough" else (0,)) for rd in ("both", "none")],
     stubs=["scipy.stats.norm.sf", "scipy.stats.weibull_min.sf", "flodym.lifetime_models.UnevenTimeDim.bounds"],
-    note="ghost invariant valid(lm): each cached table is absent or equals the table of the current parameters. History: optionally read sf / pdf, then set_prms(new parameters), then read both: they must be the tables of the new parameters (what a freshly built model gives)",
+    note="1-2 (thorough: 3) evaluation points per interval; ghost invariant valid(lm): each cached table is absent or equals the table of the current parameters. History: optionally read sf / pdf, then set_prms(new parameters), then read both: they must be the tables of the new parameters (what a freshly built model gives)",
 )
 def u_tables_follow_prms(W, sk):
-    M = LM(W, sk["dist"], sk["extra"])
+    M = LM(W, sk["dist"], sk["extra"], npts=sk.get("npts", 1))
     lm = M.lm
     n = M.n
     stubs = lm_stubs(W)
